@@ -203,8 +203,8 @@ func (prop) Gen(r *core.Rand, tier string) []core.Case {
 		if r.Chance(30) {
 			n = r.Range(1, 40*C)
 		}
-		if tier == "thorough" && i < 3 {
-			n = []int{4096*C - 5, 4096 * C, 4096*C + 1}[i] // second-level boundary of the encrypted tree (1 GiB)
+		if tier == "thorough" && i < 2 {
+			n = []int{4096 * C, 4096*C + 1}[i] // second-level boundary of the encrypted tree (1 GiB; ~3 min each)
 		}
 		c.Ops = append(c.Ops, fmt.Sprintf("pipe %d %d %d", r.Intn(1000), n, r.Range(100, 5000)), "get -")
 		k := (n + C - 1) / C
@@ -287,6 +287,7 @@ type runner struct {
 	pad       int
 	keyLen    int
 	last      []byte
+	hasLast   bool
 	lastPlain []byte
 	fresh     bool // index is 0 (just created or Reset)
 	lastIdx0  bool // `last` was produced starting at index 0
@@ -367,14 +368,14 @@ func (rn *runner) encOp(ctx *core.Ctx, data []byte, decrypt bool, isLast bool) s
 			return "ok?"
 		}
 		if !decrypt {
-			rn.last = nil
+			rn.last, rn.hasLast = nil, false
 		}
 		return "err"
 	}
 	out, err := rn.call(data, decrypt)
 	if err != nil {
 		if !decrypt {
-			rn.last = nil
+			rn.last, rn.hasLast = nil, false
 		}
 		return "err"
 	}
@@ -387,7 +388,7 @@ func (rn *runner) encOp(ctx *core.Ctx, data []byte, decrypt bool, isLast bool) s
 		if len(out) != want {
 			ctx.Fail("encrypt-len", "ciphertext of %d bytes with padding %d has %d bytes", len(data), rn.pad, len(out))
 		}
-		rn.last, rn.lastPlain, rn.lastIdx0 = append([]byte(nil), out...), append([]byte(nil), data...), rn.fresh
+		rn.last, rn.lastPlain, rn.lastIdx0, rn.hasLast = append([]byte{}, out...), append([]byte(nil), data...), rn.fresh, true
 	} else if isLast && rn.fresh && rn.lastIdx0 {
 		// round trip: same key, same starting index
 		if len(out) < len(rn.lastPlain) || !bytes.Equal(out[:len(rn.lastPlain)], rn.lastPlain) {
@@ -438,7 +439,7 @@ func (rn *runner) Step(ctx *core.Ctx, op []string) string {
 			return "bad-op"
 		}
 		rn.enc = encryption.New(key, pad, uint32(ctr), sha3.NewLegacyKeccak256)
-		rn.pad, rn.keyLen, rn.last, rn.fresh = pad, len(key), nil, true
+		rn.pad, rn.keyLen, rn.last, rn.hasLast, rn.fresh = pad, len(key), nil, false, true
 		return "ok"
 	case len(op) == 2 && op[0] == "chunk":
 		cd, ok := core.ParseSrc(op[1])
@@ -623,7 +624,7 @@ func (rn *runner) Step(ctx *core.Ctx, op []string) string {
 		}
 		return rn.encOp(ctx, data, op[0] == "d", false)
 	case len(op) == 1 && op[0] == "dl":
-		if rn.last == nil {
+		if !rn.hasLast {
 			return "nolast"
 		}
 		return rn.encOp(ctx, rn.last, true, true)
